@@ -148,7 +148,7 @@ def clos_case(where, exit_, cap, nest="body", reg0=False):
         pre.append(p.emit([p.paren(p.call(p.id("xpcall"), [p.id("scope"), h]))]))
     elif exit_ in ("co_yield", "co_death", "co_error", "co_rterror"):
         pre += [p.local(["co"], [p.call(p.field(p.id("coroutine"), "create"), [p.id("scope")])]),
-                p.emit([p.call(p.field(p.id("coroutine"), "resume"), [p.id("co")] + ([p.num(61), p.num(62), p.num(63)] if co_va else []))]),
+                p.emit([p.call(p.field(p.id("coroutine"), "resume"), [p.id("co")] + ([p.num(60 + i) for i in range(12)] if co_va else []))]),      # many varargs: the thread hands back 1 + nargs registers first
                 p.emit([p.call(p.field(p.id("coroutine"), "status"), [p.id("co")])])]
     else:
         pre.append(p.emit([p.call(p.id("scope"), [])]))
